@@ -40,6 +40,28 @@ CORPUS = [
 ]
 
 
+# state that only goes wrong after many cycles: hundreds of moves in the watch's lifetime; a directory rename (probed at once)
+# as the n-th and (n+1)-th move for n around the powers of two where caches and counters are usually bounded
+def _long_life_script():
+    sc = [["makedirs", "root/d0/s"], ["create", "root/f0"], ["drain"]]
+    k = 0
+    moves = 0
+    marks = {62, 63, 126, 127, 254, 255, 256, 510, 511, 1022, 1023}
+    for i in range(1030):
+        sc.append(["rename", f"root/f{i % 2}", f"root/f{(i + 1) % 2}"])
+        moves += 1
+        if moves in marks:
+            sc += [["drain"], ["rename", f"root/d{k}", f"root/d{k + 1}"], ["drain", "probe"]]
+            k += 1
+            moves += 1
+    return sc + [["drain"]]
+
+
+CORPUS.append({"seed": 5, "recursive": True, "n_root": 0, "n_out": 1, "final_probes": True, "probe_p": 1.0, "follow_symlink": True,
+               "script": _long_life_script()})
+CORPUS.append(dict(CORPUS[-1], seed=6, follow_symlink=False))
+
+
 def make_cfg(r, seed):
     cfg = c01.make_cfg(r, seed, probe_p=0.35)
     cfg["bias"] = BIAS
